@@ -106,7 +106,7 @@ func verifPeer(kind int) (a *net.UDPAddr, wantIP []byte) {
 
 // VerifC14Serve: a script of up to three reads; kinds (one digit per slot, 9 = no slot):
 // 0 valid packet, 1 undecodable bytes, 2 empty read, 4 connection closed concurrently, 7 valid
-// packet during whose read the server is closed.
+// packet during whose read the server is closed, 8 valid packet of more than 576 bytes.
 // peers: one digit per slot (see verifPeer).
 func VerifC14Serve(k1, k2, k3, peers int) {
 	conn := &verifConn{}
@@ -121,7 +121,7 @@ func VerifC14Serve(k1, k2, k3, peers int) {
 		peer, wantIP := verifPeer(pk % 10)
 		pk /= 10
 		switch kind {
-		case 0, 7:
+		case 0, 7, 8:
 			var e verifExpect
 			e.valid = true
 			copy(e.xid[:], verifBytes("xid", 4))
@@ -130,6 +130,9 @@ func VerifC14Serve(k1, k2, k3, peers int) {
 			verifAssume(e.code >= 1)
 			verifAssume(e.code <= 254)
 			e.val = verifBytes("val", 3)
+			if kind == 8 {
+				e.val = verifBytes("val", 400) // a large datagram: more than 576 bytes on the wire
+			}
 			e.peerIP, e.peerPort = wantIP, peer.Port
 			p := &dhcpv4.DHCPv4{OpCode: dhcpv4.OpcodeType(e.op), HWType: 1, TransactionID: e.xid, ClientHWAddr: net.HardwareAddr{2, 0, 0, 0, 0, 1}, Options: dhcpv4.Options{e.code: e.val}}
 			conn.script = append(conn.script, verifRead{data: p.ToBytes(), peer: peer, closeFirst: kind == 7})
@@ -175,7 +178,7 @@ func VerifC14Serve(k1, k2, k3, peers int) {
 		if closedAt >= 0 && i >= closedAt {
 			break
 		}
-		if kind == 0 || kind == 7 {
+		if kind == 0 || kind == 7 || kind == 8 {
 			want = append(want, exp[idx])
 			idx++
 		}
